@@ -339,7 +339,12 @@ def compute_covariance_xx(seperation, subap1_diam, subap2_diam, r0, L0):
     x3 = seperation[..., 0] + (subap2_diam + subap1_diam) * 0.5
     r3 = numpy.sqrt(x3**2 + seperation[..., 1]**2)
 
-    Cxx = (-2 * structure_function_vk(r1, r0, L0)
+    # the two like-signed ends are only the same distance apart for equal sub-aperture sizes
+    x4 = seperation[..., 0] - (subap2_diam - subap1_diam) * 0.5
+    r4 = numpy.sqrt(x4**2 + seperation[..., 1]**2)
+
+    Cxx = (- structure_function_vk(r1, r0, L0)
+            - structure_function_vk(r4, r0, L0)
             + structure_function_vk(r2, r0, L0)
             + structure_function_vk(r3, r0, L0)
            )
@@ -358,7 +363,12 @@ def compute_covariance_yy(seperation, subap1_diam, subap2_diam, r0, L0):
     y3 = seperation[..., 1] + (subap2_diam + subap1_diam) * 0.5
     r3 = numpy.sqrt(seperation[..., 0]**2 + y3**2)
 
-    Cyy = (-2 * structure_function_vk(r1, r0, L0)
+    # the two like-signed ends are only the same distance apart for equal sub-aperture sizes
+    y4 = seperation[..., 1] - (subap2_diam - subap1_diam) * 0.5
+    r4 = numpy.sqrt(seperation[..., 0]**2 + y4**2)
+
+    Cyy = (- structure_function_vk(r1, r0, L0)
+           - structure_function_vk(r4, r0, L0)
            + structure_function_vk(r2, r0, L0)
            + structure_function_vk(r3, r0, L0)
            )
